@@ -68,7 +68,7 @@ type (
 
 	adaptiveShedder struct {
 		cpuThreshold    int64
-		windows         int64
+		windows         float64
 		flying          int64
 		avgFlying       float64
 		avgFlyingLock   syncx.SpinLock
@@ -105,9 +105,10 @@ func NewAdaptiveShedder(opts ...ShedderOption) Shedder {
 	}
 
 	bucketDuration := options.window / time.Duration(options.buckets)
+	// 每秒的桶数（windows）须取精确比值：整除会把超过一秒的桶算成 0、把不能整除一秒的桶数算小，从而低估容量
 	return &adaptiveShedder{
 		cpuThreshold:    options.cpuThreshold,
-		windows:         int64(time.Second / bucketDuration),
+		windows:         float64(time.Second) / float64(bucketDuration),
 		overloadTime:    syncx.NewAtomicDuration(),
 		droppedRecently: syncx.NewAtomicBool(),
 		passCounter:     collection.NewRollingWindow(options.buckets, bucketDuration, collection.IgnoreCurrentBucket()),
@@ -205,7 +206,7 @@ func (as *adaptiveShedder) maxFlight() int64 {
 	// maxQPS = maxPASS * windows
 	// minRT = 毫秒单位的最小平均响应时间
 	// maxQPS * minRT / 每秒的毫秒数
-	return int64(math.Max(1, float64(as.maxPass()*as.windows)*(as.minRt()/1e3)))
+	return int64(math.Max(1, float64(as.maxPass())*as.windows*(as.minRt()/1e3)))
 }
 
 func (as *adaptiveShedder) maxPass() int64 {
